@@ -262,6 +262,23 @@ Proof.
     split; [lia|]. nia.
 Qed.
 
+Lemma nl_facts v q den : 2 <= den ->
+  (v = q -> v * den = den * q) /\
+  (Z.abs v <= Z.abs q -> Z.abs (v * den) <= Z.abs (den * q)) /\
+  (v * den = den * q -> v = q) /\
+  (v * den = - (den * q) -> v = - q) /\
+  ((0 <= v -> 0 <= v * den) /\ (v <= 0 -> v * den <= 0) /\ (v < 0 -> v * den < 0)) /\
+  ((0 <= q -> 0 <= den * q) /\ (q <= 0 -> den * q <= 0) /\ Z.abs q <= Z.abs (den * q)).
+Proof.
+  intros Hd.
+  split; [intros ->; ring|].
+  split. { intros H. rewrite !Z.abs_mul. rewrite (Z.abs_eq den) by lia. nia. }
+  split. { intros H. nia. }
+  split. { intros H. nia. }
+  split. { repeat split; intros; nia. }
+  repeat split; intros; try nia.
+Qed.
+
 Ltac use_N HN1 HN2 c :=
   try (assert (0 <= c) by (destruct (Z.le_gt_cases 0 c); [assumption | exfalso; apply HN1; repeat split; first [reflexivity | lia]]));
   try (assert (c <= 9223372036854775807)
@@ -295,11 +312,7 @@ Proof.
   assert (Hcv : cast mt v = v).
   { apply cast_fits. subst mt. destruct Htr as [?|[?|[?|?]]]; subst tr; cbv [uac promote]; unfits; lia. }
   rewrite Hcv.
-  assert (Na : v = q -> v * den = den * q) by (intros ->; ring).
-  assert (Nb : Z.abs v <= Z.abs q -> Z.abs (v * den) <= Z.abs (den * q)) by nia.
-  assert (Nc : v * den = den * q -> v = q) by nia.
-  assert (Nd : (0 <= v -> 0 <= v * den) /\ (v <= 0 -> v * den <= 0) /\ (v < 0 -> v * den < 0)) by nia.
-  assert (Ne : (0 <= q -> 0 <= den * q) /\ (q <= 0 -> den * q <= 0) /\ Z.abs q <= Z.abs (den * q)) by nia.
+  destruct (nl_facts v q den ltac:(lia)) as (Na & Nb & Nc & Nf & Nd & Ne).
   set (m := v * den) in *. set (P := den * q) in *. clearbody m P.
   assert (Hm : fits mt m = true).
   { subst mt. destruct Hsr as [?|[?|[?|?]]], Htr as [?|[?|[?|?]]]; subst sr tr;
